@@ -642,10 +642,15 @@ fn c06_edge(op: &Op, res: &str, pre_s: &Value, post_s: &Value, pre: &Views, post
     };
     // the takeover is also applied when no replacement proxy is available (the call then reports
     // NO_AVAILABLE_RESOURCE after having changed the store): that is a failover, too
-    let took_over = res.starts_with("OK") || (res.starts_with("NO_AVAILABLE_RESOURCE") && pre_s.get("clusters") != post_s.get("clusters"));
+    // NO_AVAILABLE_RESOURCE is an answer about the *replacement*, not a refusal to fail over: the
+    // property promises the promotion whenever the partner is healthy and speaks of a "failed,
+    // unreplaced proxy" afterwards.  A call that answers so and leaves the failed proxy's nodes
+    // masters has not failed over (seed S-C06-3: the storage layer discarded the takeover).
+    let took_over = res.starts_with("OK") || res.starts_with("NO_AVAILABLE_RESOURCE");
     if !took_over {
         return out;
     }
+    let store_unchanged = pre_s.get("clusters") == post_s.get("clusters");
     let (cname, ci, part) = match pre_mem.get(addr).and_then(|v| v.first()) {
         Some(x) => x.clone(),
         None => return out,
@@ -679,7 +684,7 @@ fn c06_edge(op: &Op, res: &str, pre_s: &Value, post_s: &Value, pre: &Views, post
             let after_role = postc.get_node(&peer.node_address).map(|x| x.get_role());
             if after_role != Some(Role::Master) || after.as_ref() != Some(&before) {
                 out.push((
-                    "replica-did-not-take-over".into(),
+                    if store_unchanged && res.starts_with("NO_AVAILABLE_RESOURCE") { "failover-without-spare-proxy-promoted-nothing".into() } else { "replica-did-not-take-over".into() },
                     format!(
                         "[{}] failover {}: master {} owned {:?}; its replica {} now role {:?} owns {:?}",
                         tag, addr, n.get_address(), before, peer.node_address, after_role, after
@@ -1059,6 +1064,8 @@ fn enabled_ops(cfg: &RunCfg, st: &State) -> Vec<Op> {
             if general {
                 ops.push(Op::AddFailure { addr: addr.clone(), reporter: "r1".into() });
                 ops.push(Op::RemoveProxy { addr: addr.clone() });
+                // probe: the address registers again with other nodes (judged, never expanded)
+                ops.push(Op::AddProxyAlt { addr: addr.clone(), host: host.clone(), index });
                 // re-registration (clears failed mark / reports)
                 if failed_set(snap).contains(&addr) || reported_set(snap).contains(&addr) {
                     ops.push(Op::AddProxy { addr: addr.clone(), host: host.clone(), index });
@@ -1301,6 +1308,12 @@ fn expand_state(cfg: &RunCfg, prop: &str, st: &State, seed: u64) -> Expansion {
             Some(ea) => {
                 let viol = std::panic::catch_unwind(std::panic::AssertUnwindSafe(|| edge_oracles(cfg, prop, &ea)))
                     .unwrap_or_else(|_| vec![("panic-in-query".into(), "a query API panicked while evaluating the edge".into())]);
+                let mut viol = viol;
+                if matches!(op, Op::AddProxyAlt { .. }) {
+                    // the successor of a probe is not expanded: evaluate its state oracles here
+                    let sv = std::panic::catch_unwind(std::panic::AssertUnwindSafe(|| state_oracles(cfg, prop, &ea.next.snap))).unwrap_or_else(|_| vec![("panic-in-query".into(), "a query API panicked on the state after the operation".into())]);
+                    viol.extend(sv.into_iter().map(|(k, d)| (format!("state-after:{}", k), d)));
+                }
                 let ka = h128(&state_key(&ea.next));
                 let mismatch = match theirs.get(i) {
                     // with a cluster epoch ahead of the global epoch the rank argument does not
@@ -1466,6 +1479,12 @@ fn run_search(cli: &Cli, cfg: &RunCfg, prop: &str, hash_seeds: u64) -> (Stats, V
                         if e.panicked {
                             continue;
                         }
+                        if matches!(e.op, Op::AddProxyAlt { .. }) {
+                            // probe operation: the edge was judged (edge oracles of the property and
+                            // the state oracles of its successor, see expand_state), the successor
+                            // is not part of the explored graph
+                            continue;
+                        }
                         if !succ_keys.contains(&e.next_key) {
                             if hs_i > 0 {
                                 local.seed_new_successors += 1;
@@ -1625,6 +1644,9 @@ fn configs(cli: &Cli, prop: &str) -> Vec<RunCfg> {
             v.push(mk(&[2, 2, 2], false, 1, 12, Profile::Scaling, vec![4, 8], c(4), false, 8_000));
             v.push(mk(&[2, 2, 2], false, 0, 12, Profile::Scaling, vec![4, 8], c(8), false, 8_000));
             v.push(mk(&[1; 6], true, 1, 12, Profile::Scaling, vec![4, 8], c(4), false, 8_000));
+            // a scale-in that removes two chunks: one source chunk can be drained while the other
+            // still has uncommitted tasks (seed S-C10-3)
+            v.push(mk(&[2, 2, 2], false, 0, 4, Profile::Scaling, vec![4, 12], c(12), false, 8_000));
         }
         return v;
     }
